@@ -2,6 +2,13 @@ from vf.runner import Entry
 PROPERTY = "C13"
 HARNESS = "C13.cpp"
 SOURCES = ["src/containers/grid/GridIndexMapping.cpp"]
+CLAIM = ("GridIndexMapping<double,2> / <float,3>: for every symbolic extent, resolution and in-extent point (exact-real "
+         "semantics of the implemented formulae) the cell index is below the cell count on each axis and the point lies within "
+         "half a resolution of the returned cell centre; cell counts per axis are enumerated by the solver up to the stated bound")
+BOUNDS = dict(quick="cells per axis <= 4 (double 2D) / <= 3 (float 3D); bounds in [-1e3,1e3], resolution in [1e-3,10]",
+              thorough="cells per axis <= 8 (2D) / <= 5 (3D)")
+ASSUMPTIONS = ["floats are read as reals (exact domain): rounding in floor/ceil/division is outside the claim"]
+OUTSIDE = ["IEEE rounding of the index computation", "more cells per axis than the bound (the arithmetic is size-generic; the table-filling loop is what is bounded)"]
 
 def entries(tier):
     n = 4 if tier == "quick" else 8
